@@ -64,7 +64,7 @@ Qed.
 
 Lemma e2_inv_step : forall s a s', Inv s -> step s a = Some s' -> Inv s'.
 Proof.
-  intros s a s' I H. destruct a as [t rq|t| | | |t|t]; cbn in H.
+  intros s a s' I H. destruct a as [t rq|t| | | |t|t|t]; cbn in H.
   - destruct (e2_sf_start _ _ _ _ H) as [x [x' SF]]. exact (e2_inv_sf _ _ _ _ _ I SF).
   - assert (HTL : forall t a, gth s t = Some a -> TL t a) by (intros u b Hb; exact (proj1 (b_tl s (i_b s I) _ _ Hb))).
     destruct (e2_sf_resume _ _ _ HTL H) as [x [x' SF]]. exact (e2_inv_sf _ _ _ _ _ I SF).
@@ -84,6 +84,9 @@ Proof.
   - (* the cancelled wait gives up: a thread step like the other error exits *)
     assert (HTL : forall t a, gth s t = Some a -> TL t a) by (intros u b Hb; exact (proj1 (b_tl s (i_b s I) _ _ Hb))).
     destruct (e2_sf_resume_cancelled _ _ _ HTL H) as [x [x' SF]]. exact (e2_inv_sf _ _ _ _ _ I SF).
+  - (* a failed store read: a thread step like the other error exits (or the pc move of a found SaveMeta target) *)
+    assert (HTL : forall t a, gth s t = Some a -> TL t a) by (intros u b Hb; exact (proj1 (b_tl s (i_b s I) _ _ Hb))).
+    destruct (e2_sf_resume_read_fail _ _ _ HTL H) as [x [x' SF]]. exact (e2_inv_sf _ _ _ _ _ I SF).
 Qed.
 
 Lemma e2_inv_run : forall acts s s', Inv s -> run s acts = Some s' -> Inv s'.
